@@ -87,6 +87,14 @@ def run_slice(pid, cfg, n_cases, seed, workdir, rep, stats, profiles=None, attri
                 continue
             if dr.get("stalled"):
                 stats["script_cut_off"] += 1
+            if cfg.get("py_monitor"):
+                import pymon
+                why = getattr(pymon, cfg["py_monitor"])(dr)
+                stats["py_monitor_checked"] += 1
+                if why:
+                    rep.violation(case_payload(pid, case, dr, None, {"failed": {"python_monitor": cfg["py_monitor"]},
+                                                                       "why": why}))
+                    continue
             todo.append((case, dr))
     verdicts = run_cases.judge_cases(todo, workdir, jobs=16, proj=cfg["proj"], mon=cfg["mon"])
     samples = []
@@ -170,6 +178,11 @@ def replay_run(pid, cfg, payload, workdir):
         return {"fails": True, "why": "exception %s" % (dr["exc"][:3],), "dr": dr}
     if not dr["valid"]:
         return {"fails": True, "why": "rejected by the validator: " + dr["stdout"][:200], "dr": dr}
+    if cfg.get("py_monitor"):
+        import pymon
+        why = getattr(pymon, cfg["py_monitor"])(dr)
+        if why:
+            return {"fails": True, "why": why, "dr": dr}
     v = run_cases.judge_cases([(case, dr)], workdir, jobs=1, proj=cfg["proj"], mon=cfg["mon"])[0]
     w = v["net"]
     fails = ((v["model"] == 0 and v["disagree"] is not None) or (w["model"] == 0 and w["disagree"] is not None)
